@@ -632,6 +632,8 @@ class World(object):
             return DDHost.s, ("s", None)
         if fn == "sx":  # static method reached through an instance: same function, same key space
             return self.dd_hosts["x"].s, ("s", None)
+        if fn == "k":  # var-keyword signature: extra options are part of the key
+            return dd_k, ("k", None)
         if fn in ("p", "q"):  # two different functions with identical module and __name__
             return (dd_p if fn == "p" else dd_q), (fn, None)
         if fn == "h":  # custom keygetter whose result depends on state that the body changes
@@ -643,6 +645,8 @@ class World(object):
         rk = ident + (key,)
         if fn == "h":
             rk = rk + (self.dd_rev,)
+        if fn == "k":
+            rk = rk + (sp,)
         self.dd_calls += 1
         prev = self.dd_inflight.get(rk)
         in_flight = prev is not None and not prev.is_computed()
@@ -655,6 +659,10 @@ class World(object):
             t = target.asynq(key)
         elif sp == "mix":
             t = target.asynq(key, mode=0)
+        elif sp == "o1":
+            t = target.asynq(key, timeout=1)
+        elif sp == "o2":
+            t = target.asynq(key, timeout=2)
         else:
             raise ValueError(sp)
         self.keep.append(t)
@@ -1155,16 +1163,18 @@ def _block(w, tc, stmts, rec, made):
             raise ValueError(op)
 
 
-_DD_IDX = {("p", None): 6, ("q", None): 7, ("h", None): 5, ("f", None): 0, ("g", None): 1, ("m", "x"): 2, ("m", "y"): 3, ("s", None): 4}
+_DD_IDX = {("k", None): 8, ("p", None): 6, ("q", None): 7, ("h", None): 5, ("f", None): 0, ("g", None): 1, ("m", "x"): 2, ("m", "y"): 3, ("s", None): 4}
 
 
-def _dd_body(fn, host, key):
+def _dd_body(fn, host, key, extra=()):
     """body shared by all deduplicated harness functions; behaviour chosen by the program"""
     w = _cur.w
-    rk = (fn, host, key)
+    if fn == "h":
+        extra = (w.dd_rev,)  # the key this execution was registered under (the body bumps the revision below)
+    rk = (fn, host, key) + tuple(extra)
     run = w.dd_runs.get(rk, 0) + 1
     w.dd_runs[rk] = run
-    base = -(100000 + _DD_IDX[(fn, host)] * 10000 + key * 1000 + run * 10)
+    base = -(100000 + _DD_IDX[(fn, host)] * 10000 + key * 1000 + (100 if extra == ("o2",) else 0) + run * 10)
     kind = w.dd_body
     w.dd_stack.append(rk)
     if fn == "h":
@@ -1174,7 +1184,7 @@ def _dd_body(fn, host, key):
             return ("dd", fn, host, key, run)
         if kind == "selfsync" and run == 1:
             # synchronous re-entry with the same key while this body is running (escape hatch)
-            inner = w.dd_call({"f": "f", "g": "g", "s": "s"}.get(fn, "m" + (host or "x")), key, "pos").value()
+            inner = w.dd_call(fn if fn != "m" else "m" + (host or "x"), key, "o1" if fn == "k" else "pos").value()
         else:
             inner = None
         it = HItem("a", base, "ok")
@@ -1208,6 +1218,12 @@ def dd_f(key, mode=0):
 @_asynq_deco()
 def dd_g(key, mode=0):
     return (yield from _dd_body("g", None, key))
+
+
+@_tools.deduplicate()
+@_asynq_deco()
+def dd_k(key, **opts):
+    return (yield from _dd_body("k", None, key, ("o1",) if opts.get("timeout") == 1 else ("o2",)))
 
 
 def _dd_factory(tag):
